@@ -5,10 +5,17 @@ CHECK = {
                         "C09.gen_buf", "C09.gen_first", "C09.gen_bytes", "C09.gen_hdr", "C09.gen_len", "C09.gen_oversize", "C09.gen_body",
                         "C09.gen_crl_loop", "C09.gen_crl", "C09.gen_term", "C09.gen_redir", "C09.gen_shape", "C09.gen_actions",
                         "C09.gen_goweb", "C09.gen_recover",
+                        "C09T.split_join", "C09T.split_host", "C09T.split_host_port", "C09T.split_bracket", "C09T.split_bare_v6", "C09T.redirSplit_total", "C09T.parseRedirAddr_no_panic",
+                        "C09T.c09_target_with_port", "C09T.c09_target_default_port", "C09T.c09_target_unresolvable", "C09T.odd_empty_port", "C09T.odd_bracket_no_colon", "C09T.odd_bracket_no_port", "C09T.odd_empty",
+                        "C09T.isBypass_iff", "C09T.c07_bypass_wellformed", "C09T.bypass_short_entry_witness", "C09T.key_length", "C09T.gen_key_len", "C09T.gen_admin_added",
+                        "C09T.lower_idem", "C09T.parseEntry_spec", "C09T.parseEntry_no_panic", "C09T.parseProxyBook_no_panic", "C09T.gen_book_networks", "C09T.book_unknown_network_dropped",
+                        "C09T.gen_structure", "C09T.gen_init_exprs",
                         "FPS.fpFlat_conserve", "FPS.fpFlat_close", "FPS.fpFlat_stable", "FPS.fpFlat_bound", "FPS.relay_fold", "Rec.readFull_spec"],
-        "scenarios": ["C09"],
+        "lean_module": "CloakModel.Props.C09All",
+        "scenarios": ["C09", "C09target"],
         "reset_ops": ["fp.read", "fp.run"],
-        "rule": "inputs: random bytes; every first byte value; 0x16 records of declared length 0,1,7,40,300,2994..2997,3000,16384,65535 (full / trailing bytes / "
+        "rule": "C09target: RedirAddr in the documented forms (host / host:port / [v6]:port / bare v6; v4, v6 full and compressed, zones, v4-mapped, names that do and do not resolve offline), 42 fixed odd texts, byte-level mutations; each through the real parseRedirAddr and through InitState + dispatchConnection with a recording RedirDialer (local addresses v4/v6/unparsable); bypass tables with entries of 0..32 bytes x uids (entry, padded, truncated, one byte off, tail of another entry, random); ProxyBooks (networks in every case, unknown networks, pairs of length 0..3, addresses that do not resolve); whole RawConfigs (cnc, database present/absent/unopenable, KeepAlive <=0 / >0, key lengths). "
+                "C09: inputs: random bytes; every first byte value; 0x16 records of declared length 0,1,7,40,300,2994..2997,3000,16384,65535 (full / trailing bytes / "
                 "truncated body / truncated header); genuine uTLS ClientHellos of 3 browsers with random Cloak fields (whole, trailing, truncated, bit-flipped, "
                 "inner lengths broken, re-framed short); HTTP GETs with/without a (bogus, non-base64, short) hidden header, LF-only, bare G, body following; "
                 "over-long lines and header blocks incl. a terminator ending at byte 2999/3000/3001; valid Cloak hellos (TLS x3 browsers, WebSocket) with unknown "
@@ -22,6 +29,6 @@ CHECK = {
                         "the 15 s read deadline is honoured by the peer conn (virtual time in the harness)",
                         "what AuthFirstPacket/MakeObfuscator/ProxyBook/user lookup conclude is an input (Verdict) of the model; that only valid fresh hellos of authorised users escape the rejecting verdicts is C07/C08",
                         "c09_total: parser totality is tied through the recover() guards (T1) and exercised by mutated hellos (T2); the parsers themselves are not modelled here (C06's parser model)"],
-        "trusted": ["harness duplexEnd (blocking in-memory net.Conn honouring read deadlines) and testing/synctest quiescence"],
+        "trusted": ["net.ResolveIPAddr / ResolveTCPAddr / ResolveUDPAddr and net.SplitHostPort of the local address are EXTERNAL to Model/ServerConfig.lean: oracle tables computed by the harness with the same Go functions", "strings.ToLower is modelled on ASCII names only", "harness duplexEnd (blocking in-memory net.Conn honouring read deadlines) and testing/synctest quiescence"],
         "timeout": {"quick": 300, "thorough": 1800},
     }
